@@ -59,6 +59,9 @@ func (t *Tmpl) Args() []string {
 	a := make([]string, len(t.Toks))
 	for i, k := range t.Toks {
 		a[i] = k.S
+		if k.K == URL && k.S == hookURLMark {
+			a[i] = HookURL
+		}
 	}
 	return a
 }
@@ -105,8 +108,13 @@ func t(id, cmd string, flags int, toks ...Tok) *Tmpl {
 	return &Tmpl{ID: id, Cmd: cmd, Toks: toks, Flags: flags}
 }
 
-// HookURL is an endpoint nobody listens on.
-const HookURL = "http://127.0.0.1:9/verif"
+// HookURL is the endpoint used by hook templates and states. The default is a
+// port nobody listens on; checks point it at StartSink() so that deliveries
+// succeed (a failing endpoint makes the hook manager sleep 500 ms while holding
+// the hook's lock, which slows every later command touching that hook).
+var HookURL = "http://127.0.0.1:9/verif"
+
+const hookURLMark = "@HOOKURL@"
 
 var templates []*Tmpl
 
@@ -222,9 +230,9 @@ func init() {
 	add(t("TEST.expr", "TEST", FRead, w("TEST"), w("GET"), k("fleet"), id("truck1"), w("INTERSECTS"), w("("), w("CIRCLE"), n("33.5"), n("-112.2"), n("1000"), w("OR"), w("NOT"), w("HASH"), gh("9tbn"), w(")"), w("AND"), w("TILE"), in("24"), in("51"), in("7")))
 	add(t("TEST.sector.quadkey", "TEST", FRead, w("TEST"), w("QUADKEY"), gh("0231"), w("INTERSECTS"), w("SECTOR"), n("33.5"), n("-112.2"), n("50000"), n("0"), n("90")))
 	// ---- hooks and channels
-	add(t("SETHOOK", "SETHOOK", 0, w("SETHOOK"), nm("hook1"), url(HookURL), w("META"), nm("m1"), v("v1"), w("EX"), n("9000"), w("NEARBY"), k("fleet"), w("FENCE"), w("POINT"), n("33.5"), n("-112.2"), n("6000")))
-	add(t("SETHOOK.within", "SETHOOK", 0, w("SETHOOK"), nm("hook2"), url(HookURL), w("WITHIN"), k("fleet"), w("FENCE"), w("DETECT"), v("enter,exit"), w("OBJECT"), js(PolyJSON)))
-	add(t("SETHOOK.roam", "SETHOOK", 0, w("SETHOOK"), nm("hook3"), url(HookURL), w("NEARBY"), k("fleet"), w("FENCE"), w("ROAM"), k("fleet"), p("*"), n("500")))
+	add(t("SETHOOK", "SETHOOK", 0, w("SETHOOK"), nm("hook1"), url(hookURLMark), w("META"), nm("m1"), v("v1"), w("EX"), n("9000"), w("NEARBY"), k("fleet"), w("FENCE"), w("POINT"), n("33.5"), n("-112.2"), n("6000")))
+	add(t("SETHOOK.within", "SETHOOK", 0, w("SETHOOK"), nm("hook2"), url(hookURLMark), w("WITHIN"), k("fleet"), w("FENCE"), w("DETECT"), v("enter,exit"), w("OBJECT"), js(PolyJSON)))
+	add(t("SETHOOK.roam", "SETHOOK", 0, w("SETHOOK"), nm("hook3"), url(hookURLMark), w("NEARBY"), k("fleet"), w("FENCE"), w("ROAM"), k("fleet"), p("*"), n("500")))
 	add(t("SETCHAN", "SETCHAN", 0, w("SETCHAN"), nm("chan1"), w("INTERSECTS"), k("fleet"), w("FENCE"), w("BOUNDS"), n("33"), n("-113"), n("34"), n("-112")))
 	add(t("DELHOOK", "DELHOOK", 0, w("DELHOOK"), nm("hook1")))
 	add(t("PDELHOOK", "PDELHOOK", 0, w("PDELHOOK"), p("hook*")))
